@@ -71,6 +71,10 @@ def specs_for(ctx):
         dict(D=2, target="sphere", box="sym", noise="det", options=dict(max_fun_evals=200, tol_mesh=0.05), seed=ctx.seed * 10 + 4),
         dict(D=2, target="sphere", box="sym", noise="declared", sigma=0.4, options=dict(max_fun_evals=45, noise_final_samples=10), seed=ctx.seed * 10 + 5),
         dict(D=1, target="sphere", box="sym", noise="det", options=dict(max_fun_evals=30, search_n_try=1), seed=ctx.seed * 10 + 6),
+        # a passive output_fcn (returns False): observing a run must not change when it stops
+        dict(D=2, target="sphere", box="sym", noise="det", output_fcn="passive", options=dict(max_fun_evals=46), seed=ctx.seed * 10 + 9),
+        dict(D=2, target="rosen", box="sym", noise="det", output_fcn="passive", options=dict(max_fun_evals=45, search_n_try=1, max_iter=6), seed=ctx.seed * 10 + 10),
+        dict(D=2, target="sphere", box="sym", noise="declared", sigma=0.3, output_fcn="passive", options=dict(max_fun_evals=60, noise_final_samples=2), seed=ctx.seed * 10 + 11),
         # stochastic targets started AT the optimum: nothing improves, so the run is stopped by the stall rule, whose window is doubled for them
         dict(D=2, target="sphere", box="sym", noise="declared", sigma=0.3, x0="atopt", options=dict(max_fun_evals=150, noise_final_samples=2), seed=ctx.seed * 10 + 7),
         dict(D=2, target="sphere", box="sym", noise="specified", sigma=0.2, x0="atopt", options=dict(max_fun_evals=150, noise_final_samples=2), seed=ctx.seed * 10 + 8),
